@@ -15,7 +15,7 @@ package chain
 //@   ensures result != nil ==> result.Header != nil && result.Header.Height == height
 
 //@ func (*BlockChain).initTxPool
-//@   props C04
+//@   props C04 C02
 //@   requires bc != nil && txGuard != nil && (block != nil ==> block.Header != nil && bc.GetBlockByHeight(block.Header.Height) == block)
 //@   let top = int(block.Header.Height); st = block.Header.Time
 //@   invariant @loop 0: iter != nil && iter.Header != nil && iter == bc.GetBlockByHeight(height) && int(height) <= top && stableTime == st
